@@ -159,6 +159,22 @@ theorem staticCallsT_acc (st : StructTable) (insOf : String → List Param)
     repeat' split
     all_goals (rw [ih, ih _ ([] ++ _)]; simp)
 
+/-- a tree that passes `treeOkList` has no map call of run-time size -/
+theorem runtime_not_treeOk (st : StructTable) (insOf : String → List Param)
+    (node : String → List String → RBMap → RB × List STree) (path : List String) (self : RBMap)
+    (c : Call) (cs : List Call) (sib : RBMap) (above : List String) (hm : c.mapped = true)
+    (h : treeOkList above (staticCallsT st insOf node path self (c :: cs) sib []).2 = true) :
+    ((callIndicesT st self sib (insOf c.callee) c).isNone &&
+      (runtimeMode st self sib (insOf c.callee) c).isSome) = false := by
+  cases hcond : ((callIndicesT st self sib (insOf c.callee) c).isNone &&
+      (runtimeMode st self sib (insOf c.callee) c).isSome) with
+  | false => rfl
+  | true =>
+    exfalso
+    simp only [staticCallsT, hm, if_true, hcond] at h
+    rw [staticCallsT_acc] at h
+    simp [treeOkList, treeOk] at h
+
 end Proofs.ResolverStatic
 
 namespace Proofs.ResolverStatic
@@ -208,6 +224,14 @@ theorem evalCall_mappedC (st : StructTable) (F : Nat) (insOf : String → List P
     intro ix; cases ix <;> rfl
   simp only [evalCall, hd, hm, hag, hci, hmode, hnonempty, Bool.not_true, Bool.false_eq_true, if_false,
     hnull, List.map_map, Function.comp_def, List.flatMap_map]
+
+/-- on a source of statically known size the mode is the kind of the literal -/
+theorem splitIsMap_static (st : StructTable) (self sib : RBMap) (e : Exp) (T : Ty) (ixs : Bool × List Idx)
+    (h : staticIndices (filterR st T (resolveRefs self sib e)) = some ixs) :
+    splitIsMap st self sib e = isMapLit (resolveRefs self sib e) := by
+  unfold splitIsMap
+  cases hr : resolveRefs self sib e <;> simp only [isMapLit]
+  all_goals (rw [hr] at h; simp [filterR, staticIndices] at h)
 
 section ctx
 variable (st : StructTable) (hst : StructsOk st) (F : Nat) (hF : NarrowFix st F) (ρ : Store)
@@ -351,6 +375,7 @@ theorem mapped_factsT (P : Program) (Fs : ForkAssign → Prop) (env : Env) (self
     have h3 := (eval_resolveRefs st hst F hF ρ Fs env self sib hrel f0 hf0 b.exp _ h2).2
     have h4 := h1.1
     rw [staticIndices_filterT] at h4
+    rw [splitIsMap_static st self sib b.exp _ _ h4] at h4
     cases split_shape st false p.ty _ ixsP h3 h4 with
     | inl h => exact h.2
     | inr h => exact absurd h.1 (by simp)
@@ -447,7 +472,7 @@ theorem args_mappedC (P : Program) (forks : List (String × Idx)) (env : Env) (s
       | false => simp [hs]
       | true =>
         obtain ⟨es, hr, _⟩ := hfacts p hp b hfb hs
-        simp [hs, hr, isMapLit]
+        simp [hs, hr, splitIsMap]
   · intro f hf
     obtain ⟨hfa, hfl⟩ := hf.sub
     simp only at hfl
